@@ -231,12 +231,16 @@ def check_obligations(pid, thorough=False):
             res["broken"].append((m, f"`axiom` declaration in {p}"))
     audit_dir = os.path.join(LEAN, ".lake", "audit")
     os.makedirs(audit_dir, exist_ok=True)
-    audit = os.path.join(audit_dir, pid + ".lean")
+    audit = os.path.join(audit_dir, f"{pid}_{os.getpid()}.lean")
     with open(audit, "w") as f:
         f.write(f"import Rngs.Props.{pid}\n")
         for t in thms:
             f.write(f"#print axioms {t}\n")
     rc, out, err = sh(["lake", "env", "lean", audit], cwd=LEAN, timeout=1800)
+    try:
+        os.remove(audit)
+    except OSError:
+        pass
     txt = out + err
     if rc != 0:
         res["broken"].append(("audit", "audit file failed: " + txt[-500:]))
